@@ -131,6 +131,14 @@ theorem C18_advert_after_response (info : Info) (p : Pairings) (steps : List Ste
     ∃ conn, Obs.write conn rid ∈ earlier :=
   (good_run _ steps (good_init info p)).ord.split later earlier rid txt h
 
+/-- The request tags in the log are meaningful: a request step is given the identifier `nextRid`,
+    and in every trace every identifier that occurs in the log (response write, cipher install,
+    published record) is below `nextRid`, i.e. belongs to a request dispatched earlier in the
+    trace — no entry is ever attributed to a request that has not happened yet. -/
+theorem C18_request_ids_fresh (info : Info) (p : Pairings) (steps : List Step) :
+    ∀ o ∈ (run (init info p) steps).log, o.rid < (run (init info p) steps).nextRid :=
+  (fresh_run _ steps (fresh_init info p)).log
+
 /-- Every record handed to the advertiser in a trace states the pairing status of that moment:
     `sf = "1"` iff no controller is paired when the record is built. -/
 theorem C18_published_sf_exact (s : Sys) (st : Step) (rid : Nat) (txt : List (String × String))
